@@ -42,7 +42,8 @@ Definition cmp (f : num -> num -> bool) : num -> num -> num :=
   fun a b => match a, b with NErr, _ | _, NErr => NErr | _, _ => I (if f a b then 1 else 0) end.
 Definition o3 (f : num -> num -> num -> num) : num -> list num -> num :=
   fun x l => match l with [a; b] => f x a b | _ => NErr end.
-Definition envof (l : list num) : nat -> num := fun i => nth i l NErr.
+Definition mkp (ps : list (nat * option num)) (ks : list num) (c : num) : prim :=
+  {| p_params := ps; p_coef := ks; p_const := c |}.
 Definition FUEL := 60%nat.
 (* 0: implementation = model of the repaired NaropFunction;  1: implementation = model of the code
    as it is (evaluates only Function instances among narop arguments) where the two differ;
@@ -70,9 +71,9 @@ Definition agrees (m i : den) : bool := den_eqb (den_norm m) i || den_has_objarg
    0: implementation = model with both repairs (= the lifting law);
    1: = model of NaropFunction as it is (evaluates only Function instances among the extra arguments);
    4: = model of scbuiltin as it is (undecorated kernel as selector);  5: both;  2: none *)
-Definition code (c : list num * expr * expr * den) : nat :=
-  let '(e, x, y, i) := c in
-  let ev fx t := eval_f (envof e) fx FUEL (build t) in
+Definition code (c : list prim * callargs * expr * expr * den) : nat :=
+  let '(ps, ca, x, y, i) := c in
+  let ev fx t := eval_f (env_of ps ca) fx FUEL (build t) in
   if den_eqb (den_norm (ev true y)) i then 0%nat
   else if agrees (ev false y) i then 1%nat
   else if agrees (ev true x) i then 4%nat
@@ -121,21 +122,52 @@ def pynum(v):
 # ---------------------------------------------------------------------------
 # leaves: descriptors shared by the Coq printer, the impl runner and the text printer
 
+NAMES = ['x', 'depth', 'rate', 'q']      # parameter names of the primitive functions (model: 0..3)
+
+
 class Gen:
-    def __init__(self, rng):
+    def __init__(self, rng, kwmode=False):
         self.rng = rng
-        self.fns = []          # [(k, c)]
+        self.fns = []          # [{'params': [[name_idx, default|None]], 'coef': [k], 'c': c}]
+        self.kwmode = kwmode
         self.x = rnd_num(rng)
+        if not kwmode:
+            self.pos, self.kw = [self.x], []          # called as f(x)
+        else:
+            # keyword call: 0..2 positional values, keywords for a random subset of the names
+            npos = rng.choice([0, 0, 1, 1, 2])
+            self.pos = [rnd_num(rng) for _ in range(npos)]
+            names = [i for i in range(len(NAMES)) if rng.random() < 0.6]
+            if npos and rng.random() < 0.9:
+                names = [i for i in names if i != 0]     # mostly avoid x given twice (TypeError)
+            self.kw = [[i, rnd_num(rng)] for i in names]
 
     def num(self, pool=None):
         return ['num'] + nd(self.rng.choice(pool) if pool else rnd_num(self.rng))
 
     def fn(self, pool=None):
-        if pool:
-            k, c = 0, self.rng.choice(pool)
+        rng = self.rng
+        if not self.kwmode:
+            if pool:
+                k, c = 0, rng.choice(pool)
+            else:
+                k, c = rng.choice([0, 1, 1, 2, -1, Fraction(1, 2)]), rnd_num(rng)
+            self.fns.append({'params': [[0, None]], 'coef': [k], 'c': c})
         else:
-            k, c = self.rng.choice([0, 1, 1, 2, -1, Fraction(1, 2)]), rnd_num(self.rng)
-        self.fns.append((k, c))
+            # several named parameters, some with defaults, in varying order; not every function
+            # declares every keyword the call passes
+            n = rng.choice([0, 1, 2, 2, 3])
+            names = rng.sample(range(len(NAMES)), n)
+            if 0 in names and rng.random() < 0.7:
+                names.remove(0)
+                names.insert(0, 0)                         # x usually first
+            params, seen_default = [], False
+            for nm in names:
+                has_d = seen_default or rng.random() < 0.55   # python: defaults must be trailing
+                seen_default = has_d
+                params.append([nm, rnd_num(rng) if has_d else None])
+            coef = [rng.choice([1, 1, 2, -1, Fraction(1, 2), 0]) for _ in names]
+            self.fns.append({'params': params, 'coef': coef, 'c': rnd_num(rng)})
         return ['fn', len(self.fns) - 1]
 
     def nums(self, lo=0, hi=4, pool=None):
@@ -181,18 +213,6 @@ class Gen:
                 'seqCf': lambda p=None: self.seq('C', self.rng.randint(1, 2), p, leafy=True),
                 'seqL': lambda p=None: self.seq('L', None, p),
                 'seqT': lambda p=None: self.seq('T', None, p)}[kind](pool)
-
-    def env(self):
-        out = []
-        for k, c in self.fns:
-            v = k * self.x + c
-            if isinstance(v, Fraction) and not any(isinstance(t, Fraction) for t in (k, c, self.x)):
-                v = int(v)
-            # python: int*int+int stays int; anything with a float is float
-            if any(isinstance(t, Fraction) for t in (k, c, self.x)):
-                v = Fraction(v)
-            out.append(v)
-        return out
 
 
 def leaf_kind(d):
@@ -302,8 +322,7 @@ def txt_leaf(d, g):
     if t == 'num':
         return pynum(nval(d[1:]))
     if t == 'fn':
-        k, c = g['fns'][d[1]]
-        return 'Function(lambda x: %s*x + %s)' % (pynum(nval(k)), pynum(nval(c)))
+        return 'Function(%s)' % fn_source(g['fns'][d[1]])
     if t == 'str':
         return 'routine_over([%s])' % ', '.join(pynum(nval(i)) for i in d[1])
     if t == 'pat':
@@ -341,8 +360,42 @@ def txt_expr(e, g):
         return 'Pn(%s, %d)' % (txt_expr(e[1], g), e[2])
 
 
+def fn_source(f):
+    """python source of a primitive: lambda p0, p1=d1: c + k0*p0 + k1*p1 (shared with the impl runner)"""
+    ps = ', '.join(NAMES[n] if d is None else '%s=%s' % (NAMES[n], pynum(nval(d))) for n, d in f['params'])
+    body = pynum(nval(f['c'])) + ''.join(' + %s*%s' % (pynum(nval(k)), NAMES[n]) for k, (n, _d) in zip(f['coef'], f['params']))
+    return 'lambda %s: %s' % (ps, body)
+
+
+def call_text(c):
+    return ', '.join([pynum(nval(v)) for v in c['pos']] + ['%s=%s' % (NAMES[n], pynum(nval(v))) for n, v in c['kw']])
+
+
 def case_text(c):
-    return '%s   evaluated with x = %s' % (txt_expr(c['e'], c), pynum(nval(c['x'])))
+    return '%s   functions called with (%s)' % (txt_expr(c['e'], c), call_text(c))
+
+
+def coq_prims(c):
+    def one(f):
+        ps = '; '.join('(%d%%nat, %s)' % (n, 'None' if d is None else '(Some %s)' % cnum(d)) for n, d in f['params'])
+        return '(mkp [%s] [%s] %s)' % (ps, '; '.join(cnum(k) for k in f['coef']), cnum(f['c']))
+    return '([%s] : list prim)' % '; '.join(one(f) for f in c['fns'])
+
+
+def coq_callargs(c):
+    return '(([%s] : list num), ([%s] : list (nat * num)))' % (
+        '; '.join(cnum(v) for v in c['pos']), '; '.join('(%d%%nat, %s)' % (n, cnum(v)) for n, v in c['kw']))
+
+
+def upgrade_case(c):
+    """old corpus format (one positional x, fns = [[k, c]]) -> argument-record format"""
+    if 'pos' in c:
+        return c
+    c = dict(c)
+    c['fns'] = [{'params': [[0, None]], 'coef': [k], 'c': cc} for k, cc in c['fns']]
+    c['pos'], c['kw'] = [c.pop('x')], []
+    c.pop('env', None)
+    return c
 
 
 # ---------------------------------------------------------------------------
@@ -381,8 +434,21 @@ def gen_cases(ctx, n_per):
         return 'op' if py else rng.choice(['bi'] if name in NO_METHOD else ['bi', 'meth'])
 
     def finish(g, e, shape):
-        cases.append({'k': 'expr', 'x': nd(g.x), 'fns': [[nd(k), nd(c)] for k, c in g.fns],
-                      'env': [nd(v) for v in g.env()], 'e': e, 'shape': shape})
+        if g.kwmode and rng.random() < 0.9:
+            # mostly well-formed calls: no parameter given both positionally and by keyword, every
+            # required parameter given (the rest keeps the TypeError paths covered)
+            npos = len(g.pos)
+            bound = {f['params'][i][0] for f in g.fns for i in range(min(npos, len(f['params'])))}
+            kw = {n: v for n, v in g.kw if n not in bound}
+            for f in g.fns:
+                for i, (n, d) in enumerate(f['params']):
+                    if d is None and i >= npos and n not in kw and n not in bound:
+                        kw[n] = rnd_num(rng)
+            g.kw = [[n, kw[n]] for n in sorted(kw)]
+        cases.append({'k': 'expr', 'pos': [nd(v) for v in g.pos], 'kw': [[n, nd(v)] for n, v in g.kw],
+                      'fns': [{'params': [[n, None if d is None else nd(d)] for n, d in f['params']],
+                               'coef': [nd(k) for k in f['coef']], 'c': nd(f['c'])} for f in g.fns],
+                      'e': e, 'shape': shape})
 
     def mode_for(left_is_abs, name, py):
         ms = ['bi'] if not py else ['op']
@@ -563,6 +629,56 @@ def gen_cases(ctx, n_per):
             c = ['nar', name, 'bi' if name in NO_METHOD else rng.choice(['bi', 'meth']), a, args]
         has_stream = has_tag(c, 'str') or has_tag(c, 'pstr')
         finish(g, enclose(g, c, has_stream), 'embedded:%d:%s' % (ar5, first))
+
+    # 6. composed functions (unary, binary, n-ary, nested, reflected) whose leaves are Functions with
+    #    several NAMED parameters and defaults, CALLED WITH KEYWORD ARGUMENTS (also mixed positional +
+    #    keyword, and keywords only some leaves declare): every operand position -- receiver, right
+    #    operand, every extra n-ary operand, number-on-the-left -- must see the same (filtered) arguments
+    BIG6 = {'mul', 'ring1', 'ring2', 'ring3', 'ring4', 'difsqr', 'sumsqr', 'sqrsum', 'sqrdif', 'cubed', 'squared'}
+    un6 = [x for x in all1 if x[0] not in INEXACT1]
+    bn6 = [x for x in exact2 if x[0] not in CMP5]
+
+    def fexpr(g, depth, st):
+        """a function-valued expression"""
+        r = rng.random()
+        if depth == 0 or r < 0.25:
+            return ['leaf', g.fn()]
+
+        def sub(allow_num=True):
+            q = rng.random()
+            if allow_num and q < 0.2:
+                return ['leaf', g.num()]
+            return fexpr(g, depth - 1, st)
+
+        def pick(ops):
+            ok = [x for x in ops if not (x[0] in BIG6 and st['big'])]
+            name, py = rng.choice(ok)
+            if name in BIG6:
+                st['big'] = True
+            return name, py
+        if r < 0.4:
+            name, py = pick(un6)
+            return ['un', name, um(name, py), fexpr(g, depth - 1, st)]
+        if r < 0.7:
+            name, py = pick(bn6)
+            a, b = fexpr(g, depth - 1, st), sub()
+            if rng.random() < 0.35:
+                a, b = b, a                                  # reflected: number (or function) on the left
+            return binop_expr(g, name, py, a, b)
+        name = rng.choice(tn)
+        a = fexpr(g, depth - 1, st)
+        args = [sub() for _i in range(2)]
+        return ['nar', name, 'bi' if name in NO_METHOD else rng.choice(['bi', 'meth']), a, args]
+
+    for _ in range(n_per * 45):
+        g = Gen(rng, kwmode=True)
+        e = fexpr(g, rng.choice([1, 2, 2, 3]), {'big': False})
+        if e[0] == 'leaf':
+            e = ['un', 'neg', 'op', e]
+        if rng.random() < 0.15:                              # a comparison only outermost
+            name = rng.choice(CMP5)
+            e = binop_expr(g, name, True, e, ['leaf', g.fn()] if rng.random() < 0.6 else ['leaf', g.num()])
+        finish(g, e, 'kwcall:%s:pos%d' % (e[0], len(g.pos)))
     return cases
 
 
@@ -620,7 +736,7 @@ def pinned_cases():
 
     def n(v):
         return ['leaf', ['num'] + nd(v)]
-    base = {'k': 'expr', 'x': nd(3), 'fns': [[nd(1), nd(1)], [nd(2), nd(0)]], 'env': [nd(4), nd(6)]}
+    base = upgrade_case({'k': 'expr', 'x': nd(3), 'fns': [[nd(1), nd(1)], [nd(2), nd(0)]]})
     out = []
     # f.clip(g - 5, g + 5)(3) with f = x + 1, g = 2 x
     out.append(dict(base, e=['nar', 'clip', 'meth', fn(0), [['bin', 'sub', 'op', fn(1), n(5)], ['bin', 'add', 'op', fn(1), n(5)]]],
@@ -654,8 +770,8 @@ def run_codes(ctx, name, items, body, shard):
 
 def model_value(ctx, c, fixed):
     """print the model's evaluation of one case (diagnosis only)"""
-    txt = HEADER + 'Eval vm_compute in den_norm (eval_f (envof [%s]) %s FUEL (build %s)).\n' % (
-        '; '.join(cnum(v) for v in c['env']), 'true' if fixed else 'false', coq_expr(c['e'], fixed))
+    txt = HEADER + 'Eval vm_compute in den_norm (eval_f (env_of %s %s) %s FUEL (build %s)).\n' % (
+        coq_prims(c), coq_callargs(c), 'true' if fixed else 'false', coq_expr(c['e'], fixed))
     rc, out = ctx.coq('lift_diag', txt, timeout=120)
     return ' '.join(out.split())[-700:] if rc == 0 else 'coq error: ' + out[-300:]
 
@@ -665,15 +781,15 @@ def correspond_lift(ctx):
     cases = []
     corpus = os.path.join(fw.VERIF, 'corpus', 'C15_lift.json')
     if os.path.exists(corpus):
-        cases += json.load(open(corpus))
+        cases += [upgrade_case(k) for k in json.load(open(corpus))]
     cases += pinned_cases()
     cases += gen_cases(ctx, ctx.n(14, 120))
     ucases = gen_util_cases(ctx, ctx.n(700, 6000))
     out = ctx.impl('c15_lift_run', {'cases': cases + ucases}, timeout=900)['out']
     eout, uout = out[:len(cases)], out[len(cases):]
 
-    items = ['(([%s] : list num), %s, %s, %s)' % ('; '.join(cnum(v) for v in k['env']), coq_expr(k['e'], False),
-                                                  coq_expr(k['e'], True), coq_den(o)) for k, o in zip(cases, eout)]
+    items = ['(%s, %s, %s, %s, %s)' % (coq_prims(k), coq_callargs(k), coq_expr(k['e'], False), coq_expr(k['e'], True),
+                                       coq_den(o)) for k, o in zip(cases, eout)]
     codes, errs = run_codes(ctx, 'lift', items, 'Eval vm_compute in map code cases.', shard=150)
     uitems = ['(%s, %s)' % (coq_util(k), coq_den(o)) for k, o in zip(ucases, uout)]
     ucodes, uerrs = run_codes(ctx, 'lutil', uitems, 'Eval vm_compute in map ucode cases.', shard=300)
@@ -689,7 +805,7 @@ def correspond_lift(ctx):
         c.count('shape:' + k['shape'].split(':')[0])
         c.count('result:' + ('exception:' + o[1] if o[0] == 'e' else 'value'))
         if o[0] != 'e' and has_tag(o, 'n'):
-            c.nontriv(('e', k['e'], k['x'], k['fns']))
+            c.nontriv(('e', k['e'], k['pos'], k['kw'], json.dumps(k['fns'])))
     for k, o in zip(ucases, uout):
         c.count('util:' + k['fn'])
         c.count('result:' + ('exception:' + o[1] if o[0] == 'e' else 'value'))
@@ -715,7 +831,8 @@ def correspond_lift(ctx):
             c.failures.append(Failure(
                 'correspondence',
                 'lifting law violated on the implementation: %s  gives %s; applying the numeric operator to the evaluated '
-                'operands gives %s (%s)' % (case_text(k), json.dumps(o), model_value(ctx, k, True), text),
+                'operands gives %s (the result is what this model variant predicts, or an exception where that variant '
+                'leaves the result unspecified: %s)' % (case_text(k), json.dumps(o), model_value(ctx, k, True), text),
                 signature=sig, replay={'expression': case_text(k), 'case': k, 'impl': o, 'theorem': thm},
                 found_input=True, theorem=thm))
         elif cd == 2 and shown[2] < 6:
